@@ -19,7 +19,7 @@ import (
 	"github.com/flamego/flamego/verifharness/internal/rt"
 )
 
-const rule = "case = a history: 0..5 registrations the statement obliges the router to accept, then one candidate made by a named operator (valid, break-grammar, unknown-method, routes-list = declared through Routes(path, list) with well- and ill-formed comma lists, question-sibling = siblings that differ in a '?' inside the expression or in the optional mark only, repeat, repeat-short-form, plain-after-optional, optional-after-plain, dup-bind-across, dup-bind-inside, inner-optional, inner-empty, second-mid-matchall, matchall-clash, bad-expression, single-optional, metachar-literal), then requests built from instances of every accepted route, then optionally 1..2 further well-formed registrations that conflict with nothing and requests for them and for the earlier routes. " +
+const rule = "case = a history: 0..5 registrations the statement obliges the router to accept, then one candidate made by a named operator (valid, break-grammar, unknown-method, routes-list = declared through Routes(path, list) with well- and ill-formed comma lists, question-sibling = siblings that differ in a '?' inside the expression or in the optional mark only, repeat, repeat-short-form, plain-after-optional, optional-after-plain, dup-bind-across, dup-bind-inside, inner-optional, inner-empty, second-mid-matchall, matchall-clash, bad-expression, single-optional, metachar-literal; declared flat, or with its text cut at 1..2 arbitrary byte offsets into nested Group calls), then requests built from instances of every accepted route, then optionally 1..2 further well-formed registrations that conflict with nothing and requests for them and for the earlier routes, then optionally 1..2 registrations that are ill-formed whatever came before (each must be refused, twice), and every request once more. " +
 	"Oracle: the registration validity model (MUST_REJECT / MUST_ACCEPT / EITHER from the clauses of C08) against 'did Flame.Route panic' and 'did route.AddRoute fail'; accepted routes must serve all their instances (long and short form) through a route that admits them - the reference matcher's winner; no request may panic whatever happened before. " +
 	"non-trivial = a MUST_REJECT candidate after >=1 accepted route, or an accepted candidate that is optional, match-all, has a user group or a metacharacter literal; distinct by case text"
 
